@@ -70,6 +70,9 @@ def scenarios(tier, seed=0):
                     # a plateau: consecutive seasons with exactly the same concentration, different from the first simulated year
                     {"table": [[1990, 340.0], [2001, 340.0], [2002, 550.0], [2003, 550.0], [2004, 550.0], [2050, 550.0]]},
                     {"table": [[1990, 700.0], [2001, 700.0], [2002, 400.0], [2010, 400.0]]},
+                    # a reference concentration other than the default
+                    {"ref_concentration": 350.0, "table": [[1980, 350.0], [2000, 390.0], [2010, 430.0]]},
+                    {"ref_concentration": 400.0, "constant_conc": True, "current_concentration": 380.0},
                     # not annual over the simulated years: every season's concentration is an interpolated one
                     {"table": [[1990, 340.0], [2000, 365.0], [2005, 450.0], [2012, 600.0]]}):
             for start in ("2001/06/15", "2001/05/01", "2001/03/10"):
